@@ -455,6 +455,22 @@ func VerifIn() {
 			lv = []string{"k0", "k1", "zz", ""}[verifnd.Choice(4)] // present and absent keys
 		}
 	}
+	if rc == vcList {
+		// lists may hold lists and maps (load_json output): membership of a container among
+		// containers is decided by deep equality and must not crash
+		switch verifnd.Choice(3) {
+		case 1:
+			rv = append(rv.([]any), []any{int64(1), int64(2)})
+		case 2:
+			rv = append(rv.([]any), map[string]any{"a": int64(1)})
+		}
+		if lc == vcList && verifnd.Int(0, 1) == 1 {
+			lv = []any{int64(1), int64(2)}
+		}
+		if lc == vcMap && verifnd.Int(0, 1) == 1 {
+			lv = map[string]any{"a": int64(1)}
+		}
+	}
 	lk, rk := verifnd.Choice(4), verifnd.Choice(4)
 	expr := &ast.InExpr{Op: "in", LHS: vOperand(ctx, in, "x", 1, lv, lt, lk), RHS: vOperand(ctx, in, "y", 2, rv, rt, rk)}
 	v, dt, err := RunInExpr(ctx, expr)
